@@ -1171,8 +1171,24 @@ func SexpToGoStructs(
 		targVa.Elem().Set(reflect.ValueOf(src.Dur))
 	case *SexpBool:
 		targVa.Elem().Set(reflect.ValueOf(src.Val))
+	case *SexpUint64:
+		el := targVa.Elem()
+		switch el.Kind() {
+		case reflect.Uint, reflect.Uint8, reflect.Uint16, reflect.Uint32, reflect.Uint64, reflect.Uintptr:
+			if el.OverflowUint(src.Val) {
+				return nil, fmt.Errorf("integer %d does not fit into a field of type %v", src.Val, el.Type())
+			}
+			el.SetUint(src.Val)
+		case reflect.Int, reflect.Int8, reflect.Int16, reflect.Int32, reflect.Int64:
+			if src.Val > math.MaxInt64 || el.OverflowInt(int64(src.Val)) {
+				return nil, fmt.Errorf("integer %d does not fit into a field of type %v", src.Val, el.Type())
+			}
+			el.SetInt(int64(src.Val))
+		default:
+			return nil, fmt.Errorf("cannot store the integer %d into a field of type %v", src.Val, el.Type())
+		}
 	default:
-		fmt.Printf("\n error: unknown type: %T in '%#v'\n", src, src)
+		return nil, fmt.Errorf("cannot convert a value of type %T into a Go field of type %v", src, targVa.Type().Elem())
 	}
 	return target, nil
 }
